@@ -386,6 +386,37 @@ m("dp-topup-decoded", "deposit.pop", B+"phase0/deposit.go", "\tblsPub, err := de
 m("vb-name-cross", "view.build", B+"altair/fork.go", "\t\tpreviousEpochParticipation,\n\t\tcurrentEpochParticipation,", "\t\tcurrentEpochParticipation,\n\t\tpreviousEpochParticipation,", "UpgradeToAltair.FromFields")
 m("fs-disparity-sign", "formula.spec", "eth2/gossipval/common.go", "maxSlot := slotAfter(MAXIMUM_GOSSIP_CLOCK_DISPARITY)", "maxSlot := slotAfter(-MAXIMUM_GOSSIP_CLOCK_DISPARITY)", "CheckSlotSpan:maxSlot")
 
+# ---- variants for the rules rewritten on normal forms (each spelling-independent check must still see a changed meaning)
+U2 = "eth2/util/"
+m("nh-newton-cond", "numeric.helpers", U2+"math/math_util.go", "\tfor y < x {", "\tfor y <= x {", "IntegerSquareroot.newton")
+m("nh-newton-start", "numeric.helpers", U2+"math/math_util.go", "\ty := (x + 1) >> 1", "\ty := (x + 2) >> 1", "IntegerSquareroot.newton")
+m("nh-newton-order", "numeric.helpers", U2+"math/math_util.go", "\t\tx = y\n\t\ty = (x + n/x) >> 1", "\t\ty = (x + n/x) >> 1\n\t\tx = y", "IntegerSquareroot.newton")
+m("nh-smear-dec", "numeric.helpers", U2+"math/math_util.go", "\tv := in\n\tv--\n", "\tv := in\n", "NextPowerOfTwo.smear")
+m("nh-smear-inc", "numeric.helpers", U2+"math/math_util.go", "\tv++\n\treturn v", "\treturn v", "NextPowerOfTwo.smear")
+m("nh-pow2-op", "numeric.helpers", U2+"math/math_util.go", "(n&(n-1) == 0)", "(n&(n+1) == 0)", "IsPowerOfTwo")
+m("nh-merkle-root", "numeric.helpers", U2+"merkle/crypto_util.go", "return value == root", "return value == leaf", "VerifyMerkleBranch.fold")
+m("nh-merkle-start", "numeric.helpers", U2+"merkle/crypto_util.go", "value := leaf", "value := root", "VerifyMerkleBranch.fold")
+m("nh-merkle-bound", "numeric.helpers", U2+"merkle/crypto_util.go", "i < depth; i++", "i < index; i++", "VerifyMerkleBranch.fold")
+m("nh-time-flip", "numeric.helpers", B+"common/time.go", "if slot >= Slot(max) {", "if slot <= Slot(max) {", "TimeAtSlot.overflow-guard")
+m("nh-span-flip", "numeric.helpers", "eth2/gossipval/common.go", "if slot+span < slot {", "if slot+span > slot {", "CheckSlotSpan.overflow-guard")
+m("cp-clamp-op", "committee.partition", B+"common/shuffling.go", "if uint64(spec.MAX_COMMITTEES_PER_SLOT) < committeesPerSlot {", "if uint64(spec.MAX_COMMITTEES_PER_SLOT) > committeesPerSlot {", "CommitteeCount")
+m("cp-clamp-value", "committee.partition", B+"common/shuffling.go", "\t\tcommitteesPerSlot = uint64(spec.MAX_COMMITTEES_PER_SLOT)\n", "\t\tcommitteesPerSlot = uint64(spec.MAX_COMMITTEES_PER_SLOT) - 1\n", "CommitteeCount")
+m("cp-base", "committee.partition", B+"common/shuffling.go", "committeesPerSlot := validatorsPerSlot / uint64(spec.TARGET_COMMITTEE_SIZE)", "committeesPerSlot := validatorsPerSlot / uint64(spec.MAX_VALIDATORS_PER_COMMITTEE)", "CommitteeCount")
+m("cp-floor-value", "committee.partition", B+"common/shuffling.go", "\t\tcommitteesPerSlot = 1\n", "\t\tcommitteesPerSlot = 2\n", "CommitteeCount")
+m("cp-sampling-255", "committee.partition", B+"common/proposers.go", "effectiveBalance*0xff", "effectiveBalance*0x100", "sampling.acceptance")
+m("cp-sampling-side", "committee.partition", B+"common/proposers.go", "if effectiveBalance*0xff >= spec.MAX_EFFECTIVE_BALANCE*Gwei(randomByte) {", "if effectiveBalance*0xff <= spec.MAX_EFFECTIVE_BALANCE*Gwei(randomByte) {", "sampling.acceptance")
+m("cp-permute-rounds", "committee.partition", B+"common/proposers.go", "PermuteIndex(uint8(spec.SHUFFLE_ROUND_COUNT), absI,", "PermuteIndex(uint8(spec.SHUFFLE_ROUND_COUNT)-1, absI,", "sampling.permute")
+m("cp-permute-size", "committee.partition", B+"common/proposers.go", "absI, uint64(len(active)), seed)", "absI, uint64(len(active))-1, seed)", "sampling.permute")
+m("cp-proposer-slots", "committee.partition", B+"common/proposers.go", "for i := Slot(0); i < spec.SLOTS_PER_EPOCH; i++ {", "for i := Slot(0); i < spec.SLOTS_PER_EPOCH-1; i++ {", "ComputeProposers.slots")
+m("so-guard-op", "slots.order", B+"common/transition.go", "\tif currentSlot >= slot {", "\tif currentSlot > slot {", "ProcessSlots.target-guard")
+m("so-stateroot-eq", "slots.order", B+"common/transition.go", "benv.StateRoot != state.HashTreeRoot(tree.GetHashFn())", "benv.StateRoot == state.HashTreeRoot(tree.GetHashFn())", "PostSlotTransition.state-root")
+m("fc-flip-first", "fork.chain", B+"common/spec.go", "if epoch < spec.ALTAIR_FORK_EPOCH {", "if spec.ALTAIR_FORK_EPOCH < epoch {", "ForkVersion[<ALTAIR]")
+m("mp-eq", "merge.predicate", B+"bellatrix/transition.go", "HashTreeRoot(spec, tree.GetHashFn()) != empty, nil", "HashTreeRoot(spec, tree.GetHashFn()) == empty, nil", "bellatrix.IsTransitionBlock")
+m("iu-running-max", "idx.units", F+"proto/votestore.go", "\t\tif index < offset {", "\t\tif index > offset {", "ComputeDeltas")
+m("eu-period-current", "epc.upkeep", B+"altair/sync_aggregate.go", "if nextEpoch%spec.EPOCHS_PER_SYNC_COMMITTEE_PERIOD == 0 {", "if (nextEpoch-1)%spec.EPOCHS_PER_SYNC_COMMITTEE_PERIOD == 0 {", "ProcessSyncCommitteeUpdates.period-test")
+m("ev-pe-invalid-ok", "engine.verdict", B+"bellatrix/execution_payload.go", "\t} else if !valid {\n\t\treturn", "\t} else if valid {\n\t\treturn", "bellatrix.ProcessExecutionPayload.header-after-verdict")
+m("bs-lo-only", "bisect.step", F+"proto/proto_array.go", "pivot.Slot = min.Slot + ((max.Slot - min.Slot) / 2)", "pivot.Slot = min.Slot + ((max.Slot - min.Slot) / 4)", "XX")
+
 # lazy.init / lock.atomic positive cases are today's known findings (no mutant needed: they are violations on the tree)
 
 M = [x for x in M if not x["expect"].startswith("XX")]
